@@ -127,7 +127,7 @@ def check(case, ctx):
         judge("magnetic_field/fresh-object", out.value)
 
     def fresh_enu():
-        w = WMM(frame="ENU")
+        w = WMM(frame=gens.spell("ENU", int(abs(lat) * 1e4)))       # frame names are compared case-insensitively
         w.magnetic_field(lat, lon, h, date=d_arg)
         return np.array([w.X, w.Y, w.Z], dtype=float)
     out = call(fresh_enu)
